@@ -461,6 +461,19 @@ CaseResult run_r(Tape &t)
   bool nonblocking = true;
   uint64_t chunk = (uint64_t[]){ 1, 100, 4096, 65536 }[t.pick(4)];
   if (out_n + err_n > (1 << 20)) chunk = std::max<uint64_t>(chunk, 4096);
+  // drain on a BLOCKING handle (drain asks poll before every read, so nothing may wait on one stream while the child is
+  // stuck on the other); half of those with one stream an exact multiple of drain's buffer that then stays quiet but
+  // open while the other stream carries more than a pipe holds
+  if (use_drain && t.coin()) {
+    nonblocking = false;
+    if (t.coin()) {
+      uint64_t quiet = 4096 * (uint64_t) t.range(1, 15), busy = 70000 + (uint64_t) t.range(0, 400000);
+      bool out_quiet = t.coin();
+      out_n = out_quiet ? quiet : busy;
+      err_n = out_quiet ? busy : quiet;
+      chunk = 4096;
+    }
+  }
   if (use_drain) in_n = std::min<uint64_t>(in_n, 60000);  // drain does not feed stdin: it must fit the pipe
   if (echo) err_n = std::min<uint64_t>(err_n, 65536);
   hz::Puppet pup(fw::case_dir() + "/ctl");
@@ -477,7 +490,7 @@ CaseResult run_r(Tape &t)
   res.cls("engine-R");
   res.nontrivial = out_n > 65536 || err_n > 65536 || in_n > 65536;
   if (res.nontrivial) res.cls("stream-above-64KiB");
-  if (use_drain) res.cls("via-drain");
+  if (use_drain) res.cls(nonblocking ? "via-drain" : "via-drain:blocking-handle");
   res.hash = mix(mix(out_n, err_n), mix(in_n, chunk * 4 + use_drain * 2 + echo));
   if (r <= 0 || !pup.wait_ready(10000, reproc_pid(p))) {
     res.inconclusive("start/ready: " + std::to_string(r) + " " + pup.error());
